@@ -506,6 +506,7 @@ def run_check(modname, tier, seed=0):
             'bounds': getattr(mod, 'BOUNDS', {}).get(tier, ''), 'outside_claim': getattr(mod, 'OUTSIDE', []),
             'harnesses': _compact(per_h), 'exhaustive': exhaustive_all, 'samples': tot['samples'][:6] or [{'note': 'no path completed'}],
             'known_findings_hit': [k['id'] for k, _ in known_hits],
+            'harness_errors': [{k: (str(v)[-1200:] if k == 'tb' else v) for k, v in e.items()} if isinstance(e, dict) else str(e) for e in errors[:10]],
             'checker_cmd': './vcheck %s --tier %s' % (pid, tier),
             'trusted_base': ['z3 %s' % z3.get_version_string(), 'CPython %s' % sys.version.split()[0],
                              'symx shadow-value engine (/verif/symx)', 'exact-real model of floats'] + stubs,
